@@ -75,7 +75,7 @@ modules = {n: {} for n in loaded}
 for n, k, v in bindings:
     modules[n][k] = label[id(v)]
 # public names bound to plain data: a digest of the value, package classes / functions inside it named by their qualified name
-import hashlib
+import hashlib, enum
 def canon(v, depth=0):
     if depth > 6:
         return None
@@ -83,6 +83,8 @@ def canon(v, depth=0):
         return repr(v)
     if isinstance(v, (type, types.FunctionType)):
         return "<%s.%s>" % (getattr(v, "__module__", "?"), getattr(v, "__qualname__", "?"))
+    if isinstance(v, enum.Enum):
+        return "<enum %s.%s.%s>" % (type(v).__module__, type(v).__qualname__, v.name)
     if isinstance(v, types.ModuleType):
         return "<module %s>" % v.__name__
     if isinstance(v, (tuple, list)):
@@ -94,6 +96,8 @@ def canon(v, depth=0):
     if isinstance(v, dict):
         parts = [(canon(a, depth + 1), canon(b, depth + 1)) for a, b in v.items()]
         return None if any(a is None or b is None for a, b in parts) else "D(" + ",".join(sorted(a + ":" + b for a, b in parts)) + ")"
+    if in_pkg(getattr(type(v), "__module__", None)):
+        return "<instance of %s.%s>" % (type(v).__module__, type(v).__qualname__)
     return None
 values = {n: {} for n in loaded}
 for n in loaded:
